@@ -375,7 +375,7 @@ pub const REQUIRED: &[&str] = &["each_field_alone", "all_absent", "all_present",
 
 pub fn run(cx: &mut Ctx) {
     cx.require(REQUIRED);
-    cx.rule = "header flags random u32; 0..=20 specs; field presence: all absent, all present, each of the 33 optional strings and 18 typed fields alone (directed, 51 cases, each followed by a second spec so a wrong width shifts something visible), every pair of adjacent fields, random masks; values: asymmetric colour/bitflag bytes, f32 incl. NaN payloads, +-0, inf, subnormal, u32 boundary values, strings incl. empty and 2-byte characters. Each binary is serialized, its records walked on the strictly parsed image (long form iff an extended field is present; flag bytes + 4 + 4*popcount per record; 4 terminator bytes), re-read by the library and compared field by field (f32 by bits), and re-serialized. non-trivial = a spec with >=1 extended field followed by another spec; distinct by value hash".into();
+    cx.rule = "header flags random u32; 0..=20 specs; field presence: all absent, all present, each of the 33 optional strings and 18 typed fields alone (directed, 51 cases, each followed by a second spec so a wrong width shifts something visible), every pair of adjacent fields, random masks; values: asymmetric colour/bitflag bytes, f32 incl. NaN payloads, +-0, inf, subnormal, u32 boundary values, strings incl. empty and 2-byte characters. Each binary is serialized, its records walked on the strictly parsed image (long form iff an extended field is present; flag bytes + 4 + 4*popcount per record; 4 terminator bytes), re-read by the library and compared field by field (f32 by bits), and re-serialized. non-trivial = a spec with >=1 extended field followed by another spec; binaries with 255..65537 specs; one string the Shift-JIS encoder cannot express in 1 of 60 cases (must be refused or kept intact); distinct by value hash".into();
     let miri = cfg!(miri);
     let mut follower = AssetSpec::new();
     follower.name = Some("follower".into());
